@@ -1,3 +1,4 @@
+import Props.SchedTie
 import TaskModel.Sched.TraceLemmas
 import TaskModel.Gen.Codes
 import Props.C02
